@@ -285,6 +285,38 @@ CHECKS["C14"] = (
     "DESIGN.md §3 C14",
 )
 
+CHECKS["C09"] = (
+    "exploration",
+    "bounded-exhaustive enumeration of tree event interleavings x epoch-boundary placements (incl. exactly on events) x option combinations against integrated master equations and Stadler's closed form",
+    "Every sampling/branching interleaving and tie pattern of trees with <=4 tips is crossed with every "
+    "placement of up to 2 (quick) / 7 (thorough) epoch boundaries in the gaps between events and exactly on "
+    "each sampling and branching time, with rate/rho patterns including every merge of adjacent epochs, and "
+    "with all combinations of survival, removal probability, absolute/relative times and origin/root-edge. "
+    "Each of the 0.46 M (3.8 M) cases is compared (1e-9) with an independent Taylor-series integration of the "
+    "birth-death master equations (cross-checked against RK4 and mpmath on every run), with Stadler's closed "
+    "form for one epoch, and with the implementation on the merged model for refinement invariance; the full "
+    "cross product of the optional BDSKModel JSON keys (648 combinations) is compared with direct "
+    "construction, and BirthDeathModel with the closed form.",
+    "Continuous parameters on finite lattices; an additive constant depending only on (n, removal given) is allowed; trees above 4 tips and batched inputs are not explored.",
+    "DESIGN.md §3 C09",
+)
+CHECKS["C10"] = (
+    "exploration",
+    "bounded-exhaustive enumeration of (model graph x batched parameter subset x sample shape x entry mode) with a per-slice differential oracle",
+    "For 94 model graphs (11 torchtree-cli fixtures plus 83 hand-written specifications that together contain "
+    "every registered callable model, every substitution/site/clock/tree model and every shipped transform; "
+    "completeness asserted against the class registry) every subset of the named parameters (all 2^p-1 for "
+    "p<=6, thorough p<=8; otherwise singletons, pairs, thorough triples, complements and the full set) x "
+    "sample shapes [S] (S<=4/5 and every other dimension present) and [S,K] (<=2/3) x two or three ways the "
+    "batch enters the graph (in the JSON, or assigned after or without a first evaluation) is built on the "
+    "real objects; every density, transform and joint value is compared slice by slice (1e-10, >1000x above "
+    "the measured noise) with graphs built fresh from the individual slices, and every joint with the sum of "
+    "its components' per-slice values; raising is accepted, a wrong or mis-shaped tensor is a violation. "
+    "24.7k batched graphs quick, 69k thorough.",
+    "Differential oracle (torchtree on unbatched input); absolute correctness of unbatched values is left to C01/C04-C09; two open findings (gamma-Dirichlet prior and GMRFCovariate shapes).",
+    "DESIGN.md §3 C10",
+)
+
 NOT_APPLICABLE = {}
 
 PENDING_REASON = ("check not built yet in this revision (planned in DESIGN.md §3); "
